@@ -92,6 +92,7 @@ type peerSpec struct {
 }
 
 type knownSpec struct {
+	zone    *slot // IPv6 zone (attacker-chosen text when the address came from a tracker)
 	addr    netip.AddrPort
 	hasID   bool
 	tag     *slot
@@ -236,6 +237,11 @@ func genScenario(t *rapid.T) *scenario {
 			}
 			if !ks.hasID || rapid.Bool().Draw(t, kl+".hasversion") {
 				ks.version = p.newSlot(t, kl+".version", kText, "")
+			}
+			if ks.addr.Addr().Is6() && rapid.Bool().Draw(t, kl+".zoned") {
+				// an IPv6 address with a zone: a tracker's dictionary-form reply
+				// gives the address as text, and everything after '%' is the zone
+				ks.zone = p.newSlot(t, kl+".zone", kText, "")
 			}
 			ts.knowns = append(ts.knowns, ks)
 		}
@@ -456,7 +462,11 @@ func (sc *scenario) build(hostile bool) ([]*liveTor, error) {
 			if ks.version != nil {
 				v = ks.version.get(hostile)
 			}
-			lt.live.AddKnown(ks.addr, id, v, kinds[ki%len(kinds)])
+			ka := ks.addr
+			if ks.zone != nil && ks.zone.get(hostile) != "" {
+				ka = netip.AddrPortFrom(ka.Addr().WithZone(ks.zone.get(hostile)), ka.Port())
+			}
+			lt.live.AddKnown(ka, id, v, kinds[ki%len(kinds)])
 		}
 		lt.live.Sync()
 	}
